@@ -53,9 +53,25 @@ def r1_siblings(ctx):
     # (a) per-locale arms
     a = ast.fn(MI, "create_locale_impl", impl_self="Interpolation")
     b = ast.fn(MI, "create_locale_string_impl", impl_self="Interpolation")
+    arms_decided = False
+    if a is not None and b is not None:
+        # decided by evaluation (rules/gentext.py): both generators are run on one key and their arms read back - same arms, same
+        # fallbacks, each rendering its own locale's value through its own table
+        from rules import gentext, absint as _absint
+        from report import Rule as _Rule
+        tmp = _Rule("C02.R1", "arms", "arms", floor=0)
+        try:
+            arms_decided = gentext.check_locale_arms(ctx, tmp, rid="R1")
+        except _absint.Unknown as u:
+            r.viol("R1:locale-arms#undecided", "the per-locale generators cannot be interpreted on the current code (%s): fail closed; the structural comparison is reported alongside" % str(u)[:200], file=MI)
+        r.instances += tmp.instances
+        r.violations += tmp.violations
+        if arms_decided:
+            for nm in ("per-locale arms", "per-locale arm order", "per-locale defaulted", "per-locale value"):
+                r.inst(nm, "both back-ends generated for one key and read back (see the two instances above)")
     if a is None or b is None:
         r.missing("create_locale_impl / create_locale_string_impl")
-    else:
+    elif not arms_decided:
         def arm_heads(fn):
             heads = []
             for q in xquotes(fn.body):
